@@ -110,13 +110,24 @@ def bound_quad(A, P, Q=None):
     return B
 
 
-def err_cov_bound(Po, Pref, B):
-    d = onp.sqrt(onp.abs(onp.diag(B))) + 1e-300
-    return float(onp.max(onp.abs(onp.asarray(Po) - Pref) / onp.outer(d, d))) if Pref.size else 0.0
+def err_cov_bound(Po, Pref, B, mean=None):
+    d = onp.sqrt(onp.abs(onp.diag(B))) + 1e-150  # 1e-150^2 does not underflow: exact zeros compare as 0/tiny = 0
+    if mean is not None:
+        # a standard deviation below 1e-14 |mean| is not representable next to that mean: numerically zero
+        d = onp.maximum(d, 1e-14 * onp.abs(onp.asarray(mean, dtype=float)))
+    if not Pref.size:
+        return 0.0
+    if not (onp.all(onp.isfinite(onp.asarray(Po))) and onp.all(onp.isfinite(Pref))):
+        return float("inf")
+    return float(onp.max(onp.abs(onp.asarray(Po) - Pref) / onp.outer(d, d)))
 
 
 def err_vec_bound(mo, mref, bnd):
-    return float(onp.max(onp.abs(onp.asarray(mo) - mref) / (bnd + 1e-300))) if mref.size else 0.0
+    if not mref.size:
+        return 0.0
+    if not (onp.all(onp.isfinite(onp.asarray(mo))) and onp.all(onp.isfinite(mref))):
+        return float("inf")
+    return float(onp.max(onp.abs(onp.asarray(mo) - mref) / (bnd + 1e-150)))
 
 
 def rel_cov(P, Pref, floor=1e-10):
@@ -205,22 +216,28 @@ class AlgebraMonitor:
         # joint law of (x, y): Cov(x, y) = P A^T = G P_y ; E x = G m_y + g ; Cov x = G P_y G^T + Q_b
         Cxy_ref = matmul(P, A.T)
         # Cauchy-Schwarz scale of a cross-covariance entry: sqrt(Var x_i Var y_j)
-        sxy = onp.sqrt(onp.outer(onp.abs(onp.diag(P)) + onp.abs(onp.diag(quad(G, Py, Qb))), onp.abs(onp.diag(By)))) + 1e-300
+        vx = onp.maximum(onp.abs(onp.diag(P)) + onp.abs(onp.diag(quad(G, Py, Qb))), (1e-14 * onp.abs(m)) ** 2)
+        vy = onp.maximum(onp.abs(onp.diag(By)), (1e-14 * onp.abs(myref)) ** 2)
+        sxy = onp.sqrt(onp.outer(vx, vy)) + 1e-300
         e2 = float(onp.max(onp.abs(matmul(G, Py) - Cxy_ref) / sxy)) if sxy.size else 0.0
         mx_rec = affine(G, my, g)
         Bx = bound_quad(G, Py, Qb) + onp.abs(P)
         e3 = err_vec_bound(mx_rec, m, onp.abs(G) @ onp.abs(my) + onp.abs(g) + onp.abs(m) + onp.sqrt(onp.abs(onp.diag(Bx))))
         Px_rec = quad(G, Py, Qb)
-        e4 = err_cov_bound(Px_rec, P, Bx)
+        e4 = err_cov_bound(Px_rec, P, Bx, mean=m)
         # the gain solves with the (scaled) innovation covariance: its rounding is proportional to that condition number
         dy = onp.sqrt(onp.abs(onp.diag(Pyref)))
         try:
             kc = float(onp.linalg.cond(Pyref / onp.outer(dy, dy))) if onp.all(dy > 0) and onp.all(onp.isfinite(Pyref)) else float("inf")
         except onp.linalg.LinAlgError:
             kc = float("inf")
-        if not math.isfinite(kc) or kc > 1e6:
+        # cancellation gate: if the exact innovation variances are many orders below the magnitudes they are
+        # computed from (|A||P||A|^T + |Q|), not even their leading digits are determined by the float operands
+        with onp.errstate(all="ignore"):
+            canc = float(onp.max(onp.abs(onp.diag(By)) / onp.maximum(onp.abs(onp.diag(Pyref)), 1e-300))) if Pyref.size else 1.0
+        if not math.isfinite(kc) or kc > 1e6 or canc > 1e6:
             self.counts["revert_gain_check_skipped_ill_conditioned"] = self.counts.get("revert_gain_check_skipped_ill_conditioned", 0) + 1
-            e2 = e3 = 0.0
+            e2 = e3 = e4 = 0.0  # only the marginal of y is decidable when the innovation covariance is (numerically) singular
         else:
             e2, e3 = e2 / max(1.0, kc), e3 / max(1.0, kc)
         e = max(e1, e2, e3, e4)
